@@ -432,7 +432,8 @@ var staticSeqs = [][]step{
 	{{in: inner{1, false, ""}}, {in: okIn(6)}, {in: okIn(1)}, {in: inner{3, false, ""}}, {in: inner{2, true, "boom"}}, {in: okIn(5)}},
 }
 
-func f(pos int) map[int]string { return map[int]string{pos: "fail"} }
+// a failure at pos, its shape chosen by the position (all four shapes occur in pluginSeq)
+func f(pos int) map[int]string { return map[int]string{pos: failShapes[(pos+1)%len(failShapes)]} }
 
 // for a list [0:req 1:resp 2:req 3:resp 4:both 5:resp(nil factory)]
 var pluginSeq = []step{
@@ -443,7 +444,7 @@ var pluginSeq = []step{
 	{in: okIn(5)},
 	{in: inner{0, false, ""}, eb: f(1), bb: f(1)},
 	{in: inner{4, false, "boom"}},
-	{in: okIn(6), eb: map[int]string{0: "ignored", 1: "fail"}, bb: map[int]string{0: "ignored", 1: "fail"}},
+	{in: okIn(6), eb: map[int]string{0: "ignored", 1: "fail-same"}, bb: map[int]string{0: "ignored", 1: "fail-mod"}},
 	{in: okIn(3), eb: f(0), bb: f(4)},
 	{in: okIn(5)},
 }
@@ -496,7 +497,7 @@ func reuseStreams(cfg out.Config, w *out.Writer, r *rng.R) {
 				n int
 			}{{st.eb, lenE}, {st.bb, lenB}} {
 				if m.n > 0 && r.Chance(1, 2) {
-					m.b[r.Intn(m.n)] = []string{"fail", "fail", "ignored"}[r.Intn(3)]
+					m.b[r.Intn(m.n)] = []string{"fail", "fail-same", "fail-mod", "fail-junk", "ignored"}[r.Intn(5)]
 				}
 			}
 			steps[i] = st
